@@ -523,3 +523,50 @@ package stack
 //@   loop 2: invariant SnapOK(s) && CountsOK(b, counts, keyOf) && fresh(bs) && SlotsOK(s, len(s.Goroutines) - 1, counts, owner, pos, src) && FirstOK(s, len(s.Goroutines) - 1, counts, owner, fsrc)
 //@   loop 2: invariant [bucketsOK C04] BucketsOK(b, bs, counts, done, bidx, cof)
 //@   loop 2: invariant [visitedIsDone C04] forall key *Signature :: dom(b, key) ==> (visited[key] <==> done[b[key]])
+
+// ---- lemma layer for C05 / C12 (spec level, arbitrary well-founded heap) ---------
+//@ pred LevelOK(l Similarity) = ExactFlags <= l && l <= AnyValue
+//@ pred WFLeaf(a *Arg) = a.IsOffsetTooLarge ==> (a.Value == 0 && !a.IsPtr && a.Name == "")
+//@ spec WFVals(a []Arg) bool = forall i :: 0 <= i && i < len(a) ==> (a[i].IsAggregate ? WFVals(a[i].Fields.Values) : WFLeaf(&a[i]))
+//@ pred GenLeaf(k *Arg, m *Arg) = k.Name == "*" || (k.Name == m.Name && k.Value == m.Value && k.IsPtr == m.IsPtr && k.IsOffsetTooLarge == m.IsOffsetTooLarge)
+//@ spec GenVals(k []Arg, m []Arg) bool = len(k) == len(m) && forall i :: 0 <= i && i < len(k) ==> (k[i].IsAggregate == m[i].IsAggregate && (k[i].IsAggregate ? (k[i].Fields.Elided == m[i].Fields.Elided && GenVals(k[i].Fields.Values, m[i].Fields.Values)) : GenLeaf(&k[i], &m[i])))
+
+//@ lemma [C05] simReflexive(a []Arg, l Similarity)
+//@   requires LevelOK(l)
+//@   ensures SimVals(a, a, l)
+//@   induction height(a)
+//@ lemma [C05] simSymmetric(a []Arg, r []Arg, l Similarity)
+//@   requires SimVals(a, r, l)
+//@   ensures SimVals(r, a, l)
+//@   induction height(a)
+//@ lemma [C05] simTransitive(a []Arg, b []Arg, c []Arg, l Similarity)
+//@   requires SimVals(a, b, l) && SimVals(b, c, l)
+//@   ensures SimVals(a, c, l)
+//@   induction height(a)
+//@ lemma [C05] simRefinesExactLines(a []Arg, r []Arg)
+//@   requires SimVals(a, r, ExactFlags)
+//@   ensures SimVals(a, r, ExactLines)
+//@   induction height(a)
+//@ lemma [C05] simRefinesAnyPointer(a []Arg, r []Arg)
+//@   requires SimVals(a, r, ExactLines)
+//@   ensures SimVals(a, r, AnyPointer)
+//@   induction height(a)
+//@ lemma [C05 C12] mergedKeepsClass(k []Arg, a []Arg, r []Arg, c []Arg, l Similarity)
+//@   requires LevelOK(l) && WFVals(a) && WFVals(r) && SimVals(a, r, l) && MergedVals(k, a, r)
+//@   ensures SimVals(k, c, l) <==> SimVals(a, c, l)
+//@   induction height(a)
+//@ lemma [C05 C12] mergedKeepsWF(k []Arg, a []Arg, r []Arg)
+//@   requires WFVals(a) && MergedVals(k, a, r)
+//@   ensures WFVals(k)
+//@   induction height(a)
+//@ lemma [C12] mergedGeneralises(k []Arg, a []Arg, r []Arg)
+//@   requires SimVals(a, r, AnyValue) && MergedVals(k, a, r)
+//@   ensures GenVals(k, a) && GenVals(k, r)
+//@   induction height(a)
+//@ lemma [C12] genMonotone(k2 []Arg, k []Arg, r []Arg, m []Arg)
+//@   requires GenVals(k, m) && MergedVals(k2, k, r)
+//@   ensures GenVals(k2, m)
+//@   induction height(k)
+//@ lemma [C12] genReflexive(a []Arg)
+//@   ensures GenVals(a, a)
+//@   induction height(a)
